@@ -535,48 +535,20 @@ func (e *c13Env) extendedAll(r *rand.Rand, s int) {
 // ---------------------------------------------------------------------------------------------
 // additive OT
 
-// predictAdditiveR2 evaluates the model's AdditiveOTReceiver.Round2 mask loops (ot.masked_pad, loop bounds as
-// written) entry by entry, in the order of the Go loop, and the scalar decoding rule; first non-ok outcome wins.
+// predictAdditiveR2 asks the model for the outcome of AdditiveOTReceiver.Round2 on the message (repaired code:
+// the number of pads must equal the batch size, every pad is masked over its own length and must then decode
+// as a scalar): ot.additive_recv_class = Model/OT.v additive_msg_ok, which Proofs/OTProofs.v
+// (additive_recv_outcome) shows to decide additive_recv exactly; ok | err, never panic.
 func (e *c13Env) predictAdditiveR2(pads [][2][]byte, choices []byte) (class string, err error) {
-	var lens [2][]sx.V
-	for w := 0; w < 2; w++ {
-		lens[w] = make([]sx.V, len(pads))
-		for i := range pads {
-			lens[w][i] = sx.Int(int64(len(pads[i][w])))
-		}
+	ps := make([]sx.V, len(pads))
+	for i := range pads {
+		ps[i] = sx.List(sx.Bytes(pads[i][0]), sx.Bytes(pads[i][1]))
 	}
-	l0, l1 := sx.List(lens[0]...), sx.List(lens[1]...)
-	// at most two of these (many, similar) calls go to the cases.v sample
-	m := e.c.m
-	oldMax := m.MaxLog
-	if len(m.Log)+2 < oldMax {
-		m.MaxLog = len(m.Log) + 2
+	rep, err := e.c.m.Call("ot.additive_recv_class", sx.List(sx.Big(secpQ), sx.Int(32), sx.Bytes(choices), sx.List(ps...)))
+	if err != nil {
+		return "", err
 	}
-	defer func() { m.MaxLog = oldMax }()
-	for i := 0; i < 8*len(choices); i++ {
-		if i >= len(pads) {
-			return "panic", nil
-		}
-		cbit := sx.Int(int64(c13BitAt(i, choices)))
-		var masked [2][]byte
-		for w, lw := range []sx.V{l0, l1} {
-			rep, err := e.c.m.Call("ot.masked_pad", sx.List(lw, cbit, sx.Bytes(pads[i][w])))
-			if err != nil {
-				return "", err
-			}
-			cl := c13ResClass(rep)
-			if cl != "ok" {
-				return cl, nil
-			}
-			masked[w] = rep.L[1].B
-		}
-		for w := 0; w < 2; w++ {
-			if len(masked[w]) != 32 || new(big.Int).SetBytes(masked[w]).Cmp(secpQ) >= 0 {
-				return "err", nil
-			}
-		}
-	}
-	return "ok", nil
+	return c13ResClass(rep), nil
 }
 
 func c13CopyPads(p [][2][]byte) [][2][]byte {
@@ -648,7 +620,7 @@ func (e *c13Env) additiveCase(cs c13Case) {
 	}
 	pred, err := e.predictAdditiveR2(pads, choices)
 	if err != nil {
-		c.c13ModelErr("ot.masked_pad", err, cs)
+		c.c13ModelErr("ot.additive_recv_class", err, cs)
 	} else {
 		c.res.Corr(pred == goClass)
 		if pred != goClass {
